@@ -32,17 +32,17 @@ chk("C03", "texel (real process, rel+asan)",
     "refchess for legality; the grammar in vlib/uci.py; synthetic networks instead of the (empty) shipped network",
     "DESIGN.md section 3 C03")
 chk("C05", "texel (real process, asan+rel)",
-    "runtime session monitor: random command histories with random pacing against the real process under ASan+UBSan; offline checker over the recorded send/receive log (grammar, exactly-once readyok/bestmove, release ordering, silence after bestmove, exit status); isready-flood stress for line atomicity",
+    "runtime session monitor: random command histories with random pacing against the real process under ASan+UBSan; offline checker over the recorded send/receive log (grammar, exactly-once readyok/bestmove, release ordering, silence after bestmove, exit status); isready-flood stress for line atomicity; directed groups: option change during search, book move during ponder, node-rate throttle (MaxNPS 1), every search limit ends its search (also after ponderhit, after a searchmoves list, with clocks <= 0)",
     "Held on every recorded session (counts in evidence). Histories and pacing are sampled, not enumerated; a hang is a bounded-wait verdict (60 s exit watchdog), arrival-before-send comparisons make the ordering verdicts sound on a loaded machine.",
     "timestamps taken by the reader thread; grammar in vlib/uci.py; Hash>128MB / Threads>8 not exercised",
     "DESIGN.md section 3 C05")
 chk("C14", "texel (two real processes per case)",
     "runtime differential monitor: normalised UCI transcripts of a probe search in a fresh process vs after a seeded prior session + Clear Hash (and a second Clear Hash), plus repeat determinism",
-    "Held on every case run (32 quick / 1500 thorough; prior-session lengths around the 4-bit generation wrap are forced). Histories are sampled; equality of complete transcripts is an exact oracle per case.",
+    "Held on every case run (41 quick / 1900 thorough; prior-session lengths around the 4-bit generation wrap are forced; directed cases: resident tablebase, non-zero contempt, tables above 16 MB with the probe position searched before the clear). Histories are sampled; equality of complete transcripts is an exact oracle per case.",
     "Threads=1 probes, synthetic network; periodic time-driven statistics lines are excluded from the transcript (only the final node count is compared)",
     "DESIGN.md section 3 C14")
 chk("C11", "texel (real process) + h_game",
-    "runtime monitors with a reference model: (1) UCI scores of 'go searchmoves m' on generated histories where refchess says m creates the third occurrence / completes 100 reversible plies / mates; (2) console Game class vs a FIDE reference model after every command of random and directed command histories (rel + ASan)",
+    "runtime monitors with a reference model: (1) UCI scores of 'go searchmoves m' on generated histories where refchess says m creates the third occurrence / completes 100 reversible plies / mates, and the value of the unrestricted root (>= 0 when a drawing move exists); (2) console Game class vs a FIDE reference model after every command of random and directed command histories (rel + ASan)",
     "Held on every generated history (3000 quick / 60000 thorough search cases; 16000 / 800000 console games). Only the positive direction is asserted for searches (draw => cp 0, mate => mate 1); 2nd-occurrence controls are run but not judged because a 0 score is legitimate there.",
     "refchess position identity (legally capturable e.p. only); Contempt 0; depth-limited searches (no on-demand tablebase)",
     "DESIGN.md section 3 C11")
@@ -63,26 +63,26 @@ chk("C04", "texel (real process) + refchess solver + independent h_tb solution",
     "DESIGN.md section 3 C04")
 chk("C19", "h_bb",
     "runtime invariant monitor: after (almost) every operation of seeded book-building histories the whole graph (negamax, depth, path errors, expansion costs, links, hashToParent) is recomputed from the defining equations by an independent model and compared node by node; save/load compared node by node; ASan slice",
-    "Held on every history run (232 quick / 1e4 thorough histories, ~2e5 operations, books up to ~3600 nodes incl. transpositions with several parents, mate/INVALID/IGNORE scores, pending marks, game-tree imports, three save/load modes). A full pass runs after every operation while the book has <=300 nodes, every ceil(nodes/300)-th operation above that, and always around imports and save/load.",
+    "Held on every history run (232 quick / 1e4 thorough histories, ~2e5 operations, books up to ~3600 nodes incl. transpositions with several parents, mate/INVALID/IGNORE scores, pending marks, game-tree imports, three save/load modes, backup file with several records per node). A full pass runs after every operation while the book has <=300 nodes, every ceil(nodes/300)-th operation above that, and always around imports and save/load.",
     "graph API only (no real searches); cycles (books deeper than the half-move-clock saturation) are not explored; where the header comment and the repository's own passing unit test disagree the oracle follows the unit test (three documented places, see h_bb.cpp)",
     "DESIGN.md section 3 C19")
 chk("C20", "h_csp",
-    "runtime differential monitor: CspSolver vs exhaustive enumeration (z3 fallback) on seeded random and structured constraint systems; ASan+UBSan slice",
+    "runtime differential monitor: CspSolver vs exhaustive enumeration (z3 fallback) on seeded random and structured constraint systems, a quarter of them solved a second time on the same object after adding constraints; ASan+UBSan slice",
     "Held on every system generated (4e5 quick / 2e7 thorough). Both directions are checked (solvable <=> satisfiable) and every returned assignment is validated against all ranges, parities and constraints.",
     "the enumeration oracle in h_csp.cpp; domain product capped at 4e6 as in the property's quantifier",
     "DESIGN.md section 3 C20")
 chk("C15", "h_rev",
-    "runtime differential monitor: RevMoveGen output vs forward moves along seeded legal games; refchess judges every listed predecessor (plausibility, legality, replay to the same position and undo information); ASan slice",
+    "runtime differential monitor: RevMoveGen output vs forward moves along seeded legal games and directed walks (corner-rook captures with castling rights, one of two e.p. capturers pinned); refchess judges every listed predecessor (plausibility, legality, replay to the same position and undo information); ASan slice",
     "Held on every (P,m) pair and every un-move inspected (2.6e5 pairs / 7e6 un-moves quick; 1e7 pairs thorough); all special move classes are counted and must be non-empty.",
     "refchess; domain = positions whose e.p. square is normalised after every move (RevMoveGen's documented domain, as in class Game)",
     "DESIGN.md section 3 C15")
 chk("C16", "h_pg + texelutil (real program)",
     "runtime monitors over reachable positions: (1) every output line of the real 'texelutil proofgame -f [-o]' and of the in-process filter must not say illegal, (2) every printed proof game is replayed by an independent SAN reader on refchess to exactly the goal, (3) distLowerBound on every prefix of every generated game vs the true remaining length; ASan/UBSan slices",
     "Held on every generated game/position except for the two recorded findings F11/F12 (castling and e.p. capture are not modelled by the distance heuristic). The check fails hard if a filter stage (kernel, extended kernel CSP, last-move analysis, path search, iterated proof search) was never exercised.",
-    "refchess for game generation and proof replay; positions with >=26 men; iterated mode under a 120 s cap (unresolved = inconclusive)",
+    "refchess for game generation and proof replay; positions with >=26 men incl. forced rare shapes (cross-checks with 32 men, short games ending in an e.p. capture that gives check); iterated mode under a 120 s cap (unresolved = inconclusive); proof game stage also in-process on path: lines; FENs as normalised by the engine's own reader (strict input is the tool's tested contract)",
     "DESIGN.md section 3 C16")
 chk("C17", "h_rules + h_pgn + texel(asan) + h_fuzz",
-    "runtime round-trip monitors with independent writer/model (move text, PGN trees) and sanitizer-guarded mutation fuzzing of every text entry point (FEN, move text, UCI move, PGN, numbers, live UCI command lines); libFuzzer in the thorough tier",
+    "runtime round-trip monitors with independent writer/model (move text, PGN trees) and sanitizer-guarded mutation fuzzing of every text entry point (FEN, move text, UCI move, PGN, numbers, live UCI command lines incl. edge-of-int go parameters); engine-printed move text compared with the forced move for every promotion/castling/e.p. move; libFuzzer in the thorough tier",
     "Held on every generated case (3e6 quick; 7e7+ thorough). The PGN oracle's sensitivity is self-tested on each run (damaged expectations must all be noticed).",
     "refchess; ASan/UBSan/_GLIBCXX_ASSERTIONS see executed paths only; resource options excluded from UCI garbage",
     "DESIGN.md section 3 C17")
@@ -92,12 +92,12 @@ chk("C07", "h_eval (generic, SSSE3, AVX2, AVX-512, ASan builds) + evaluator hook
     "synthetic networks instead of the shipped (empty) one; non-sanitizer variants use the project's -O3",
     "DESIGN.md section 3 C07")
 chk("C08", "h_tt (rel, ASan, TSan)",
-    "runtime stress monitor with self-authenticating records: 2..16 threads hammer 1..4 buckets, every probe hit is re-derived from (key, nonce) so a blend of two writers is detected; exhaustive-by-size bounds sweep under ASan; ply-shift sweep; tablebase-region checksum under hash traffic; TSan run",
+    "runtime stress monitor with self-authenticating records: 2..16 threads hammer 1..4 buckets, every probe hit is re-derived from (key, nonce) so a blend of two writers is detected; exhaustive-by-size bounds sweep under ASan; ply-shift sweep; record re-stored through setBusy; tablebase-region checksum and exact re-probes under hash traffic, through clear/reSize and unrelated updateTB calls; TSan run",
     "Held on every probe hit verified (>1e8 quick) and every table size x top-16-bit key value swept under ASan. Interleavings are those the hardware produces; a no-xor mutant is detected within the quick budget (see DESIGN.md).",
     "real parallelism on 16 cores; sizes below 512 entries outside the domain; generation changes only at quiescent points, as in the engine",
     "DESIGN.md section 3 C08")
 chk("C09", "texel, texelutil, h_tt (ThreadSanitizer builds)",
-    "happens-before race detection (ThreadSanitizer) over random multi-threaded UCI sessions, proof-game filter runs with worker pools and the TT hammer; every report is a violation, de-duplicated by message and engine frames",
+    "happens-before race detection (ThreadSanitizer) over random multi-threaded UCI sessions, proof-game filter runs with worker pools (also resuming from a damaged intermediate file, so that pool tasks throw) and the TT hammer; every report is a violation, de-duplicated by message and engine frames",
     "Held on every session/run executed (48 sessions + filter runs quick; 2000 sessions thorough). TSan judges by happens-before analysis, so a race is reported even when the accesses did not collide in time; it only sees pairs of accesses that executed.",
     "TSan intercepts all synchronisation used (std::mutex/condition_variable/thread, atomics); Syzygy fence code never executes without tablebase files",
     "DESIGN.md section 3 C09")
@@ -108,12 +108,12 @@ chk("C18", "h_book (ASan+rel) + texel OwnBook slice",
     "DESIGN.md section 3 C18", category="fault_enumeration")
 chk("C06", "h_cos (engine in-process under cosched, virtual clock)",
     "runtime trace monitor under a virtual clock: limits handed to the search (hook), every stop test of the main search thread (hook) and time-stamped output are checked against the budget derived from the go command; deterministic per (script, seed)",
-    "Held on every timed search run (about 430 quick / 2e4 thorough) across the time-control grid; 'one polling interval' is measured per search from the observed stop tests, so retuning the poll frequency cannot raise an alarm.",
+    "Held on every timed search run (about 430 quick / 2e4 thorough) across the time-control grid; 'one polling interval' is measured per process from the observed stop tests (a MaxNPS throttle sleep inside a stop test counts while the node-rate cap justifies it), so retuning the poll frequency cannot raise an alarm.",
     "virtual time = nodes of the main search thread (100 per ms) + sleeps; 2 ms allowance for the engine's millisecond truncation; hooks H1-H3",
     "DESIGN.md section 3 C06")
 chk("C10", "h_cos (engine in-process under cosched)",
-    "runtime trace monitor under a deterministic cooperative scheduler that owns every blocking point (pthread interposition): seeded uniform-random and PCT schedules with pre-emption points every 64 nodes; offline checker over the recorded event trace (exactly-once bestmove, helpers idle at search end, job/root attribution of accepted helper results, no stale work); deadlock = no runnable thread",
-    "Held on every (script, seed) run (320 quick / 3e4 thorough; every run a distinct schedule digest). Interleavings are sampled, not enumerated: no exhaustive pre-emption-bounded exploration is claimed. A lost-wake-up mutant of Notifier::wait is flagged as a logical deadlock in >90% of the runs.",
+    "runtime trace monitor under a deterministic cooperative scheduler that owns every blocking point (pthread interposition): seeded uniform-random and PCT schedules with pre-emption points every 64 nodes, before every condition wait (mutex still held) and after every notification; offline checker over the recorded event trace (exactly-once bestmove, helpers idle at search end, job/root attribution of accepted helper results, no stale work); deadlock = no runnable thread",
+    "Held on every (script, seed) run (320 quick / 3e4 thorough; every run a distinct schedule digest). Interleavings are sampled, not enumerated: no exhaustive pre-emption-bounded exploration is claimed. A lost-wake-up mutant of Notifier::wait is flagged as a logical deadlock in >90% of the runs, a lock-free notify in 45%, notify-before-flag in 8%.",
     "the scheduler serialises threads (no weak-memory effects, no data races - those are C09); hooks H5 provide the events; virtual clock",
     "DESIGN.md section 3 C10")
 
